@@ -133,13 +133,13 @@ def leadingParents : List Comp → Nat
   | [] => 0
   | c :: cs => if c.isParent then leadingParents cs + 1 else 0
 
-/-- `Path::path_by_appending_path`.  `none` is the Rust panic (more upward
-    moves than components: `usize` subtraction overflow). -/
+/-- `Path::path_by_appending_path`.  Total: more upward moves than components
+    stop at the root (`len.saturating_sub(upward_moves)`, which is the natural-number
+    subtraction here); the result is never `none` (the `Option` is kept for the
+    callers that were written against the panicking version). -/
 def appendPath (p q : Path) : Option Path :=
   let up := leadingParents q.comps
-  if up ≤ p.comps.length then
-    some { comps := p.comps.take (p.comps.length - up) ++ q.comps.drop up, rel := false }
-  else none
+  some { comps := p.comps.take (p.comps.length - up) ++ q.comps.drop up, rel := false }
 
 /-- Number of leading components two component lists share. -/
 def sharedPrefix : List Comp → List Comp → Nat
@@ -154,7 +154,7 @@ def toRelative (own global : Path) : Path :=
     { comps := List.replicate (own.comps.length - k) (Comp.name Comp.parentId) ++ global.comps.drop k,
       rel := true }
 
-/-- `Object::compact_path_string(own, other)`; `none` is the panic of `appendPath`. -/
+/-- `Object::compact_path_string(own, other)`; never `none` (`appendPath` is total). -/
 def compact (own other : Path) : Option (List Char) :=
   if other.rel then
     match appendPath own other with
